@@ -11,7 +11,7 @@ from .contract import Contract, Loop
 from .source import (MissingFunction, Module, OutOfSubset, dotted_to_relpath, find_function,
                      load_module, loops_in, strip_docstring)
 from .spec import SPECS, Spec
-from .values import (V, VBool, VBound, VClosure, VInt, VMatch, VNone, VOpaque, VPy, VRec, VRef,
+from .values import (V, VBool, VBound, VClosure, VInt, VMatch, VNone, VObj, VOpaque, VPy, VRec, VRef,
                      VSeq, VStr, VStrJoin, VTuple, is_concrete_bool)
 
 BUILTIN_NAMES = {
@@ -104,6 +104,8 @@ class Evaluator:
             return self.heap.fresh_ref(base, "list")
         if n == "Opaque":
             return VOpaque(p.fresh(base, z3.IntSort()))
+        if n == "Obj":
+            return VObj({f: self.fresh_value(ft, f"{base}.{f}") for f, ft in t.args}, base)
         raise OutOfSubset("type", repr(t))
 
     def fresh_like(self, v: V, base: str) -> V:
@@ -133,6 +135,8 @@ class Evaluator:
             return VMatch(p.fresh(base, z3.BoolSort()))
         if isinstance(v, VOpaque):
             return VOpaque(p.fresh(base, z3.IntSort()), v.sort_name)
+        if isinstance(v, VObj):
+            return VObj({f: self.fresh_like(x, f"{base}.{f}") for f, x in v.fields.items()}, v.label)
         raise OutOfSubset("havoc", type(v).__name__)
 
     @property
@@ -167,7 +171,7 @@ class Evaluator:
             if isinstance(v.obj, (bool, int, str, tuple, type(None))):
                 return z3.BoolVal(bool(v.obj))
             return z3.BoolVal(True)
-        if isinstance(v, (VClosure, VBound)):
+        if isinstance(v, (VClosure, VBound, VObj, VOpaque)):
             return z3.BoolVal(True)
         raise OutOfSubset("truth", type(v).__name__)
 
@@ -718,6 +722,10 @@ class Evaluator:
             self.oos(node, f"record field {attr}")
         if isinstance(base, VRef):
             return self.heap.getattr(base, attr, node)
+        if isinstance(base, VObj):
+            if attr in base.fields:
+                return base.fields[attr]
+            return VBound(base, attr)
         if isinstance(base, VPy) and isinstance(base.obj, tuple):
             tag = base.obj[0]
             if tag == "extmod":
@@ -736,8 +744,50 @@ class Evaluator:
         self.oos(node, f"attribute {attr} of {type(base).__name__}")
 
     # ------------------------------------------------------------------ calls
+    def ev_Dict(self, node, env):
+        d = {}
+        for k, v in zip(node.keys, node.values):
+            if not (isinstance(k, ast.Constant) and isinstance(k.value, str)):
+                self.oos(node, "dict literal with non-constant key")
+            d[k.value] = self.ev(v, env)
+        return VPy(("dictobj", d))
+
+    def external_call(self, key, ext, node, env):
+        """Call by an *assumed* contract (listed under assumptions)."""
+        args = [self.lift(self.ev(a, env)) for a in node.args]
+        kwargs = {k.arg: self.lift(self.ev(k.value, env)) for k in node.keywords}
+        cenv = self.E.Env(parent=env)
+        for i, a in enumerate(args):
+            if i < len(ext.params):
+                cenv.vars[ext.params[i]] = a
+        for k, v in kwargs.items():
+            cenv.vars[k] = v
+        self.ctx.assumptions_used.add(f"assumed contract on external call `{key}` in {self.ctx.contract.name}: "
+                                      f"returns {ext.returns}, ensures {ext.ensures}, may raise {sorted(ext.exsures)}"
+                                      + (f" ({ext.note})" if ext.note else ""))
+        sub = self.pure_eval()
+        outcomes = ["ok"] + sorted(ext.exsures)
+        k = 0 if self.pure else self.path.choose(len(outcomes))
+        out = outcomes[k]
+        if out != "ok":
+            for cl in ext.exsures[out]:
+                self.path.assume(sub.truth(sub.ev(ast.parse(cl, mode="eval").body, cenv)), check=False)
+            self.path.assume(z3.BoolVal(True))
+            raise self.E.Raised(out, node)
+        res = self.fresh_value(ext.returns, f"ext:{key}@L{getattr(node, 'lineno', 0)}") if ext.returns is not None else VNone()
+        cenv.vars["result"] = res
+        for cl in ext.ensures:
+            self.path.assume(sub.truth(sub.ev(ast.parse(cl, mode="eval").body, cenv)), check=False)
+        self.path.assume(z3.BoolVal(True))
+        return res
+
     def ev_Call(self, node, env):
         f = node.func
+        exts = self.ctx.contract.externals
+        if exts and not self.pure:
+            key = ast.unparse(f)
+            if key in exts:
+                return self.external_call(key, exts[key], node, env)
         # special forms that must not evaluate all arguments eagerly
         if isinstance(f, ast.Name) and env.lookup(f.id) is None:
             if f.id == "implies" and self.pure:
@@ -1237,6 +1287,11 @@ class Evaluator:
                 idx = self.ev(tgt.slice, env)
                 self.heap.setitem(base, idx, value, node, env)
                 return
+            if isinstance(base, VPy) and isinstance(base.obj, tuple) and base.obj and base.obj[0] == "dictobj":
+                k = self.lift(self.ev(tgt.slice, env))
+                if isinstance(k, VStr) and z3.is_string_value(k.t):
+                    base.obj[1][k.t.as_string()] = value
+                    return
         self.oos(node, f"assignment target {ast.unparse(tgt)}")
 
     # repo calls / statements are in stmt.py (mixed in below)
